@@ -2,6 +2,8 @@ package mon
 
 import (
 	"fmt"
+
+	"github.com/ory/fosite"
 	"net/url"
 	"strings"
 	"time"
@@ -28,7 +30,11 @@ func C02(c *run.Ctx) {
 		r := caseRng(c, i)
 		gi := i*c.NShards + c.Shard
 		v := variant(gi)
-		w := v.build(nil)
+		w := v.build(func(cfg *fosite.Config) {
+			if gi%4 == 3 {
+				cfg.RefreshTokenLifespan = -1 // refresh tokens never expire: must not touch the code's lifetime
+			}
+		})
 		// a second public client for the public/public pair
 		w.AddClient(world.ClientSpec{ID: "pub-e", Public: true, RedirectURIs: []string{"https://app-e.example/cb"},
 			GrantTypes: []string{"authorization_code", "refresh_token"}, ResponseTypes: world.AllResponseTypes,
